@@ -419,6 +419,20 @@ impl Server {
                             }));
                         }
                     }
+                    if target != MutableItem::target_from_key(&k, salt.as_deref()) {
+                        debug!(
+                            ?target,
+                            ?requester_id,
+                            ?from,
+                            "Target doesn't match the sha1 hash of k and salt fields."
+                        );
+
+                        return Some(MessageType::Error(ErrorSpecific {
+                            code: 203,
+                            description: "Target doesn't match the sha1 hash of k and salt fields"
+                                .to_string(),
+                        }));
+                    }
                     if let Some(previous) = self.mutable_values.get(&target) {
                         if let Some(cas) = cas {
                             if previous.seq() != cas {
